@@ -60,16 +60,18 @@ Held(s) == s.scalar \cup s.cache \cup s.sig \cup s.given
 \* ----- calls ---------------------------------------------------------------------------------------------------------
 \* ("repr" stands for every default form: repr, str, bytes, hex, address data and the Address object; "copy" for a deep
 \* copy, a shallow copy or a pickle round trip, after which the copy is the subject)
+\* "reflect": EVERY attribute of the subject and every method of it that can be called without arguments, found by
+\* reflection (so that an accessor added later is covered); on a private object that is a private view
 KeyCalls == {"wif", "as_dict", "as_dict_priv", "repr", "info", "encrypt", "sign", "public", "copy",
-             "mktx_pub", "mktx_addr", "mktx_priv"}
+             "mktx_pub", "mktx_addr", "mktx_priv", "reflect"}
 \* public_path: subkey_for_path with the public root 'M' followed by levels of any shape (non-hardened, ending or
 \* starting with hardened levels, every marker spelling, string or list); public_root: the bare path 'M'
 HDOnlyCalls == {"wif_public", "wif_private", "child_priv", "child_pub", "public_master", "public_master_priv",
                 "public_path", "public_root"}
 \* calls documented to return a PUBLIC object (or to refuse): whatever the receiver, nothing private comes back
 PublicObjectCalls == {"public", "child_pub", "public_master", "public_path", "public_root"}
-SigCalls == {"repr", "as_der", "copy"}
-TxCalls == {"as_dict", "repr", "info", "raw", "copy", "save", "load", "reparse"}
+SigCalls == {"repr", "as_der", "copy", "reflect"}
+TxCalls == {"as_dict", "repr", "info", "raw", "copy", "save", "load", "reparse", "reflect"}
 NeedPrivate == {"sign", "mktx_pub", "mktx_addr", "mktx_priv"}            \* cannot be performed with a public key
 CallsOf(s) == CASE s.kind = "key" -> IF s.private THEN KeyCalls ELSE KeyCalls \ NeedPrivate
                 [] s.kind = "hdkey" -> IF s.private THEN KeyCalls \cup HDOnlyCalls ELSE (KeyCalls \cup HDOnlyCalls) \ NeedPrivate
@@ -77,11 +79,30 @@ CallsOf(s) == CASE s.kind = "key" -> IF s.private THEN KeyCalls ELSE KeyCalls \ 
                 [] OTHER -> TxCalls
 
 \* explicitly private views: the caller asks for the private key
-PrivateCalls == {"wif", "as_dict_priv", "info", "wif_private"}
-ViewOf(s, c) == IF s.private /\ s.kind \in KeyKinds /\ c \in PrivateCalls THEN "private" ELSE "public"
+PrivateCalls == {"wif", "as_dict_priv", "info", "wif_private", "reflect"}
+ViewOf(s, c) == IF s.private /\ ((s.kind \in KeyKinds /\ c \in PrivateCalls) \/ c = "reflect") THEN "private" ELSE "public"
+
+\* ----- optional arguments of the export calls -------------------------------------------------------------------------
+\* Every export call is made with every combination of its optional arguments; none of them turns a public view into a
+\* private one (the only way to ask for the private key is the call itself: wif_private / wif(is_private=True) / ...).
+\*   prefix: version bytes given explicitly, as bytes or as hex string (of any key type, witness type, network)
+\*   witness_type / multisig: serialization variant;  account: account number of the public master
+\*   form: the generic method with flags ("flags", e.g. wif(is_private=False, ...)) or the named wrapper ("named")
+WitnessTypes == {"legacy", "segwit", "p2sh-segwit"}
+NoArgs == [prefix |-> "none", witness_type |-> "none", multisig |-> "none", account |-> "none", form |-> "named"]
+ArgSpace(c) ==
+  CASE c \in {"wif_public", "wif_private"} ->
+         [prefix : {"none", "bytes", "hex"}, witness_type : {"none"} \cup WitnessTypes, multisig : {"none", "true", "false"},
+          account : {"none"}, form : {"flags", "named"}]
+    [] c = "wif" -> [prefix : {"none", "bytes", "hex"}, witness_type : {"none"}, multisig : {"none"}, account : {"none"}, form : {"named"}]
+    [] c \in {"public_master", "public_master_priv"} ->
+         [prefix : {"none"}, witness_type : {"none"} \cup WitnessTypes, multisig : {"none", "true", "false"},
+          account : {"none", "0", "3"}, form : {"flags", "named"}]
+    [] OTHER -> {NoArgs}
+CallsWithArgs == {"wif", "wif_public", "wif_private", "public_master", "public_master_priv"}
 
 \* calls during which the implementation caches the WIF in the key object (a private object may cache what it likes)
-CachingCalls(kind) == IF kind = "key" THEN {"wif", "as_dict_priv", "info"} ELSE {"wif", "info"}
+CachingCalls(kind) == IF kind = "key" THEN {"wif", "as_dict_priv", "info", "reflect"} ELSE {"wif", "info", "reflect"}
 
 Public(D, s) == [s EXCEPT !.private = FALSE, !.scalar = {},
                           !.cache = IF "public-keeps-wif-cache" \in D THEN s.cache ELSE {}]
